@@ -592,7 +592,7 @@ func TestVerifC17Reobserve(t *testing.T) {
 		}
 	}
 	// 4. unknown chains
-	nunk, nrnd, nops := 6, 150, 60
+	nunk, nrnd, nops := 8, 400, 60
 	if tier == "thorough" {
 		nunk, nrnd, nops = 40, 2500, 120
 	}
